@@ -11,6 +11,20 @@ import re
 
 
 PROPS = {
+    "C05": {
+        "coq_targets": ["theories/RT/ControlProofs.vo"],
+        "harness": ["c05"],
+        "disagreement_is_violation": True,
+        "axioms": [],
+        "trusted_base": COMMON_TB + [
+            "modelled, not verified: NearestStatementFinder (find_current / find_next; Rust's slice::binary_search taken by its contract), the GoSub / Return instructions, ErrorHandler::{None,Next,Address} dispatch in Interpreter::interpret, Resume / ResumeNext / ResumeLabel and take_last_error_address - as RT/Control.v",
+            "harness/src/c05.rs: extraction of control events from the observer trace (hooks on_instruction / on_error), the generators of control programs, 18 scenario programs whose output is known by construction",
+            "NOT modelled: the values that must survive a transfer (loop registers, variables, ERR's value), the handler's context copy; they are checked by the scenarios only",
+        ],
+        "assumptions": [
+            "statement addresses are strictly ascending (checked on every run by check_control)",
+        ],
+    },
     "C12": {
         "coq_targets": ["theories/Lang/Typing.vo"],
         "harness": ["c12"],
